@@ -381,6 +381,8 @@ impl Check for C14 {
         let n_ar = ar.len();
         ctx.judge(ar, |c, r, o| self.oracle(c, r, o))?;
         ctx.judge(freshness_cases(), |c, r, o| self.oracle(c, r, o))?;
+        let bp: Vec<Case> = super::evalorder::BOUND_ROUTE_PROGRAMS.iter().enumerate().map(|(i, p)| Case::new(p.to_string(), 1, format!("bound functions through containers, program {}", i))).collect();
+        ctx.judge(bp, |c, r, o| self.oracle(c, r, o))?;
         let tp: Vec<Case> = super::evalorder::THIS_PROGRAMS.iter().enumerate().map(|(i, p)| Case::new(p.to_string(), 1, format!("`this` per call and per creation site, program {}", i))).collect();
         ctx.judge(tp, |c, r, o| self.oracle(c, r, o))?;
         // arguments are evaluated once, left to right (and before the callee), also with spreads
